@@ -441,6 +441,9 @@ def r5_shape_to_mode(ctx: Ctx) -> None:
 
     visit(poa.node.body, frozenset())
     want_facts = {(m, frozenset(g)) for m, g in REF_SHAPES.items()}
+    seen_modes = {m for m, _g in facts}
+    if len(seen_modes & set(REF_SHAPES)) * 2 < len(REF_SHAPES):
+        raise AnalysisError(f"parse_operand_and_addressing: the shape -> mode selection is not laid out as guarded assignments any more (modes seen: {sorted(seen_modes)}); not modelled")
     for mode, g in sorted(want_facts, key=repr):
         ctx.count("shape_facts")
         ctx.check((mode, g) in facts, f"shape:{mode}", f"{mode} must be selected by the token shape {sorted(g)}; "
